@@ -13,6 +13,11 @@
 (*   "res":"ok"|"err"|"panic",     UnmarshalVersionedTransaction(input)    *)
 (*   "enc":"ok"|"panic"|"-","enc_len":n,"reenc_eq":b,   Marshal(decoded)   *)
 (*   "rt_eq":b,                    decoded = the structure that was encoded*)
+(*   "hash_reuse_eq":b,            decode from a scratch buffer, overwrite *)
+(*                                 the buffer, PayloadHash = hash of a     *)
+(*                                 value decoded from an intact copy       *)
+(*   "hash_moves_after_edit":b,    decode, append one byte to Extra,       *)
+(*                                 PayloadHash differs from the unedited   *)
 (*   "nin":n,"nout":n,"nref":n,"extra_n":n,"sigkind":s,"signers":[..]}     *)
 (*  {"ev":"Pair","idx":n,"sline":n,"f":field,"res":"ok"|"panic",           *)
 (*   "hash_eq":b,"payload_eq":b}   PayloadHash / PayloadMarshal of the     *)
@@ -38,6 +43,9 @@ DecMonitor(e) ==
     /\ e.res # "panic"
     \* any accepted byte string re-encodes to exactly the same bytes
     /\ (e.res = "ok" => e.enc = "ok" /\ e.reenc_eq /\ e.in_len = e.enc_len)
+    \* the hash of a decoded value depends on its payload fields only: not on the buffer it was
+    \* decoded from, and it follows a payload field that is changed afterwards
+    /\ (e.res = "ok" => e.hash_reuse_eq /\ e.hash_moves_after_edit)
     \* encoding followed by decoding returns an equal transaction
     /\ (e.src \in {"case", "valid"} /\ Unmutated(e) /\ e.enc0 = "ok" => e.res = "ok" /\ e.rt_eq)
 
